@@ -201,6 +201,12 @@ func c03PathItem(desc string) map[string]any {
 	return map[string]any{"get": map[string]any{"responses": map[string]any{"200": map[string]any{"description": desc}}}}
 }
 
+// c03SelfCallbackItem: a real path item one of whose callbacks holds a path-item reference to `target`
+func c03SelfCallbackItem(target string) map[string]any {
+	return map[string]any{"post": map[string]any{"responses": map[string]any{"200": map[string]any{"description": "r"}},
+		"callbacks": map[string]any{"cb": map[string]any{"{$request.body#/url}": c03Ref(target)}}}}
+}
+
 func genC03Loader(ctx *hx.Ctx, emit0 func(hx.Case)) {
 	// every directed document goes through LoadFromData(WithPath) and, in turn (thorough: both), through
 	// LoadFromFile (real files in a fresh directory) and json/yaml.Unmarshal + ResolveRefsIn
@@ -309,6 +315,46 @@ func genC03Loader(ctx *hx.Ctx, emit0 func(hx.Case)) {
 			"callbacks": map[string]any{"cb": map[string]any{"{$request.body#/url}": c03Ref(target)}}}
 		paths := map[string]any{"/a": map[string]any{"post": op}, "/b": c03PathItem("b"), "/c": c03Ref("#/paths/~1b")}
 		emit(c03LoaderCase(base(paths), nil, formats[i%2]))
+	}
+	// the key of a path-item reference met again while it is in progress (the node is queued and overwritten later by the
+	// deferred callback with the owner's node): a referenced path item whose own callback refers to it, reached directly,
+	// through a chain, and from two referrers
+	for i, paths := range []map[string]any{
+		{"/a": c03Ref("#/paths/~1b"), "/b": c03SelfCallbackItem("#/paths/~1b")},
+		{"/z": c03Ref("#/paths/~1b"), "/b": c03SelfCallbackItem("#/paths/~1b")},
+		{"/a": c03Ref("#/paths/~1c"), "/c": c03Ref("#/paths/~1b"), "/b": c03SelfCallbackItem("#/paths/~1b")},
+		{"/a": c03Ref("#/paths/~1b"), "/z": c03Ref("#/paths/~1b"), "/b": c03SelfCallbackItem("#/paths/~1b")},
+		{"/a": c03Ref("#/paths/~1b"), "/b": c03SelfCallbackItem("#/paths/~1a")},
+	} {
+		emit(c03LoaderCase(base(paths), nil, formats[i%2]))
+	}
+	// wrappers met again while their key is in progress (queued, `Value` filled by the deferred callback): a schema that
+	// refers to itself, two schemas that refer to each other, a self-reference through items / allOf / additionalProperties,
+	// a callback component whose operation uses the same callback component
+	sref := func(n string) map[string]any { return c03Ref("#/components/schemas/" + n) }
+	for i, schemas := range []map[string]any{
+		{"A": map[string]any{"type": "object", "properties": map[string]any{"self": sref("A"), "n": map[string]any{"type": "integer"}}}},
+		{"A": map[string]any{"type": "object", "properties": map[string]any{"b": sref("B")}},
+			"B": map[string]any{"type": "object", "properties": map[string]any{"a": sref("A")}}},
+		{"A": map[string]any{"type": "array", "items": sref("A")},
+			"M": map[string]any{"type": "object", "additionalProperties": sref("M")},
+			"N": map[string]any{"allOf": []any{sref("A"), map[string]any{"type": "object", "properties": map[string]any{"n": sref("N")}}}}},
+		{"A": map[string]any{"type": "object", "properties": map[string]any{"self": sref("B")}}, "B": sref("A2"),
+			"A2": map[string]any{"type": "object", "properties": map[string]any{"back": sref("B")}}},
+	} {
+		d := base(map[string]any{"/a": map[string]any{"get": map[string]any{"responses": map[string]any{"200": map[string]any{"description": "r",
+			"content": map[string]any{"application/json": map[string]any{"schema": sref("A")}}}}}}})
+		d["components"] = map[string]any{"schemas": schemas}
+		emit(c03LoaderCase(d, nil, formats[i%2]))
+	}
+	{
+		cbRef := c03Ref("#/components/callbacks/CB")
+		cbOp := map[string]any{"responses": map[string]any{"200": map[string]any{"description": "cb"}}, "callbacks": map[string]any{"again": cbRef}}
+		d := base(map[string]any{"/a": map[string]any{"post": map[string]any{"responses": map[string]any{"200": map[string]any{"description": "r"}},
+			"callbacks": map[string]any{"cb": cbRef}}}})
+		d["components"] = map[string]any{"callbacks": map[string]any{"CB": map[string]any{"{$request.body#/url}": map[string]any{"post": cbOp}}}}
+		emit(c03LoaderCase(d, nil, "json"))
+		emit(c03LoaderCase(d, nil, "yaml"))
 	}
 	use := map[string]bool{}
 	for _, k := range c03RefKinds {
